@@ -721,6 +721,23 @@ def generate(rng, index, tier):
             {'op': 'simulate', 'on': 'm1', 'theta': gen_theta(rng, info),
              'times': gen_times(rng)}])
         shadow['m1']['indirect'] = False
+    if forced is None and cls == 'pkpd' and dosable and rng.random() < 0.12:
+        # the same numeric regimen before and after a regimen given as a
+        # protocol object (or another numeric one): the last call decides
+        reg = gen_regimen(rng)
+        while 'protocol' in reg:
+            reg = gen_regimen(rng)
+        other = gen_regimen(rng)
+        if not reduced and not any(o_['op'] == 'set_administration'
+                                   for o_ in recipe['config']):
+            comp, var = rng.choice(dosable)
+            ops.append({'op': 'set_administration', 'on': 'm1',
+                        'compartment': comp, 'amount_var': var,
+                        'direct': rng.random() < 0.6})
+        ops.extend([dict(reg, on='m1'), dict(other, on='m1'),
+                    dict(reg, on='m1'),
+                    {'op': 'simulate', 'on': 'm1',
+                     'theta': gen_theta(rng, info), 'times': gen_times(rng)}])
     by_comp = {}
     for comp_, var_ in dosable:
         by_comp.setdefault(comp_, []).append(var_)
